@@ -96,6 +96,12 @@ inductive Stmt where
   | recompute
 deriving Repr, DecidableEq
 
+/-- the statement changes rows or deletion records, i.e. content covered by the daily log -/
+def Stmt.touchesLog : Stmt → Bool
+  | .put _ _ _ => true
+  | .del _ _ _ => true
+  | _ => false
+
 inductive Kind where
   | deletion | mutation | mutationStream | nodes | edges | roomMutation | roomMutationStream
   | roomNode | write | computeDailyLog | deleteEdges | deleteNodes | optimize
@@ -131,6 +137,11 @@ def Table.ofGen : Table where
     | some a => a.marks
     | none => false
   marksInTxn := Discret.Gen.WriterTable.marksInTransaction
+
+/-- executable form of `Msg.Valid` (Props/C13.lean): `Optimize` carries no statement, and only the arms that
+    feed the marks carry row writes or deletions. The driver refuses anything else. -/
+def Msg.validB (T : Table) (m : Msg) : Bool :=
+  (m.kind != .optimize || m.stmts.isEmpty) && (T.marks m.kind || m.stmts.all fun s => !s.touchesLog)
 
 /-- days on which rows with this key currently sit (the `old_node` day of a mutation or deletion) -/
 def oldDays (rows : List Row) (k : Key) : List Day := (rows.filter (fun r => r.key = k)).map (fun r => r.day)
